@@ -83,6 +83,8 @@ def run(ctx):
         fits(ctx, rng, xr)
     for i, rng in ctx.cases("selection", ctx.n(60, 1500)):
         selection(ctx, rng, xr)
+    for i, rng in ctx.cases("track", ctx.n(40, 1000)):
+        track(ctx, rng, xr)
     tr.stats()
     sys.setswitchinterval(1e-5)   # multiply GIL hand-offs between native calls
     for i, rng in ctx.cases("stress", ctx.n(32, 400)):
@@ -204,6 +206,45 @@ def combined(ctx, rng, xr, dask, ops):
         rec.bad("combined", key, {"expression": "op(a) - op(b)", "got": diff.values, "want": want.values}, "results-of-different-datasets-mixed-in-one-computation")
         return
     rec.ok("combined", key)
+
+
+def track(ctx, rng, xr):
+    """ptm1_track with dask-backed spectra and / or forcing chunked along time, site or both: the call succeeds and
+    partitions, identifiers and counts equal those of the in-memory call."""
+    rec = ctx.rec
+    f = np.linspace(0.04, 0.4, 9)
+    th = np.arange(0, 360, 45.0)
+    nt, ns = int(rng.integers(3, 8)), int(rng.integers(1, 3))
+    A, _ = gen.stack_spectra(rng, f, th, [nt, ns], cls="multimodal")
+    x = gen.make_da(A, f, th, ["time", "site"], [nt, ns])
+    co = {"time": x.time, "site": x.site}
+    w = xr.DataArray(rng.uniform(1, 20, (nt, ns)), dims=["time", "site"], coords=co)
+    wd = xr.DataArray(rng.uniform(0, 360, (nt, ns)), dims=["time", "site"], coords=co)
+    dp = xr.DataArray(np.full((nt, ns), 40.0), dims=["time", "site"], coords=co)
+    which = str(rng.choice(["spectra", "forcing", "both"]))
+    tch = int(rng.integers(1, nt))                       # at least two chunks along time
+    ch = {"time": tch} if rng.random() < 0.7 else {"time": tch, "site": 1}
+    xin = x.chunk(ch) if which in ("spectra", "both") else x
+    if which in ("forcing", "both"):
+        who = str(rng.choice(["wspd", "all"]))
+        win = w.chunk(ch)
+        wdin, dpin = (wd.chunk(ch), dp.chunk(ch)) if who == "all" else (wd, dp)
+    else:
+        who, win, wdin, dpin = "none", w, wd, dp
+    sched, nw = SCHEDS[int(rng.integers(len(SCHEDS)))]
+    key = "track|dask=%s|forcing=%s|chunks=%s|%s" % (which, who, "+".join(sorted(ch)), sched)
+    try:
+        R0 = x.spec.partition.ptm1_track(w, wd, dp, swells=2).compute()
+    except Exception as e:
+        rec.skip("track", "in-memory call raised %s" % type(e).__name__)
+        return
+    try:
+        R1 = xin.spec.partition.ptm1_track(win, wdin, dpin, swells=2).compute(scheduler=sched, num_workers=nw)
+    except Exception as e:
+        rec.bad("track", key, {"raised": repr(e)[:400], "chunks": ch}, "chunked-call-raises")
+        return
+    same = all(np.array_equal(np.asarray(R0[v].transpose(*R1[v].dims).values), np.asarray(R1[v].values), equal_nan=R0[v].dtype.kind == "f") for v in ("efth", "part_id", "npart_id"))
+    (rec.ok("track", key) if same else rec.bad("track", key, {"part_id_memory": R0["part_id"].values, "part_id_dask": R1["part_id"].values, "chunks": ch}, "chunked-result-differs"))
 
 
 def selection(ctx, rng, xr):
